@@ -413,6 +413,10 @@ class ManifestFile:
                             > MAX_SIGNED_LINE_LENGTH):
                         raise ManifestSyntaxError(
                             'Line too long for an OpenPGP-signed Manifest')
+                    # (GnuPG does not hash NUL bytes at the end of a line)
+                    if '\0' in line:
+                        raise ManifestSyntaxError(
+                            'NUL byte in an OpenPGP-signed Manifest')
                     openpgp_data += line
                 if line == '-----BEGIN PGP SIGNATURE-----\n':
                     state = ManifestState.SIGNATURE
